@@ -66,6 +66,7 @@ sites! {
     SPMC_LPOP_SKIP = 31,
     SPMC_POP_READ = 32,
     SPMC_BULK_READ = 33,
+    SPMC_PUSH_BLOCK_SET = 34,
     // may_queue::mpsc_list_v1
     LIST_PUSH_SWAPPED = 35,
     LIST_PUSH_LINKED = 36,
